@@ -58,12 +58,14 @@ func c02Set(cfg int) *Set {
 		return NewSet(l, WithDelims("<%=", "%>"))
 	case 6:
 		return NewSet(l, WithDelims("${", "}"), WithCommentDelims("<!--", "-->"))
+	case 7: // delimiters that do not start with an ASCII byte
+		return NewSet(l, WithDelims("\u00ab", "\u00bb"), WithCommentDelims("\u00a1", "!"))
 	}
 	return NewSet(l)
 }
 
-var c02Left = []string{"{{", "[[", "<%", "[[[", "{", "<%=", "${"}
-var c02Right = []string{"}}", "]]", "%>", "]]]", "}", "%>", "}"}
+var c02Left = []string{"{{", "[[", "<%", "[[[", "{", "<%=", "${", "\u00ab"}
+var c02Right = []string{"}}", "]]", "%>", "]]]", "}", "%>", "}", "\u00bb"}
 
 // H_C02_action: "{{" + N arbitrary bytes [+ "}}"] with the default delimiters: Parse is
 // total. N = 2 (quick) / 3 (thorough).
@@ -91,8 +93,9 @@ func H_C02_action() {
 	}
 }
 
-// H_C02_delims: the four custom delimiter configurations ("[[ ]]" + "[* *]", "<% %>" +
-// "<# #>", "[[[ ]]]", "{ }" + "<# #>"): left delimiter + N arbitrary bytes followed by one
+// H_C02_delims: the six custom delimiter configurations ("[[ ]]" + "[* *]", "<% %>" +
+// "<# #>", "[[[ ]]]", "{ }" + "<# #>", and two whose left and right delimiters differ in
+// length: "<%= %>", "${ }" + "<!-- -->"): left delimiter + N arbitrary bytes followed by one
 // of: nothing, the configured right delimiter, " -" + the configured right delimiter,
 // the DEFAULT right delimiter "}}", " -}}": Parse is total. N = 1 (quick) / 2 (thorough).
 //
@@ -102,7 +105,7 @@ func H_C02_delims() {
 	if vfTier() == 1 {
 		n = 2
 	}
-	cfg := 1 + ndChoice("cfg", 4)
+	cfg := 1 + ndChoice("cfg", 6)
 	set := c02Set(cfg)
 	body := ndName("b", n)
 	tails := []string{"", c02Right[cfg], " -" + c02Right[cfg], "}}", " -}}", " x -}}", " x -" + c02Right[cfg] + " t"}
@@ -314,6 +317,36 @@ func H_C02_structural() {
 	}
 	vfReach("checked")
 	vfAssert(err != nil, "structural mistake is reported")
+}
+
+// H_C02_comment: the comment opener followed by N arbitrary bytes and then nothing, the
+// closer, or text (default markers, and "<!-- -->" / "<# #>" under custom action
+// delimiters): Parse is total; the comment is accepted exactly when the closer occurs after
+// the opener (an opener whose own tail overlaps the closer's head - "{*}" - is unterminated).
+//
+//gosym:reach parsed,rejected
+func H_C02_comment() {
+	n := 2 + vfTier()
+	cfg := []int{0, 6, 2}[ndChoice("cfg", 3)]
+	open := []string{"{*", "", "<#", "", "", "", "<!--"}[cfg]
+	shut := []string{"*}", "", "#>", "", "", "", "-->"}[cfg]
+	body := ndName("b", n)
+	tails := []string{"", shut, " t", shut + " t"}
+	tail := ndChoice("tail", len(tails))
+	rest := body + tails[tail]
+	// the text after the comment must not start another comment or action
+	vfAssume(!hxContains(body, c02Left[cfg][:1]) && !hxContains(body, open[:1]))
+	src := "t" + open + rest
+	closed := hxContains(rest, shut)
+	_, err := c02Check(c02Set(cfg), "/t.jet", src)
+	if err != nil {
+		vfReach("rejected")
+		vfAssert(!closed, "a terminated comment is accepted")
+		c02SyntaxErrorShape(err, "/t.jet", src)
+	} else {
+		vfReach("parsed")
+		vfAssert(closed, "an unterminated comment is reported")
+	}
 }
 
 // H_C02_refgraph: GetTemplate over a set of two templates whose extends/import targets
